@@ -342,6 +342,7 @@ def counts(E):
             G.Ket(0, 0) >> G.H @ Id(1) >> G.CX >> G.Bra(0) @ G.Bra(0),
             G.H >> G.Bra(1),
             G.Ket(0) @ G.Bits(1) >> G.H @ Id(bit) >> G.Bra(0) @ Id(bit),
+            G.Bits(0) >> G.ClassicalGate('NOT', 1, 1, [0, 1, 1, 0]) @ G.Ket(0),
             G.Ket(0) @ G.Bits(1, 0) >> G.Rx(0.3) @ Id(bit ** 2)
             >> G.Bra(1) @ Id(bit ** 2),
             G.Ket(0) @ G.Ket(0) @ G.Ket(0) >> G.H @ G.H @ Id(1)
@@ -419,7 +420,7 @@ def harnesses(tier):
           "Discard, Copy, generic stochastic 1-bit gate}" % (2 if q else 3),
           outside="deeper circuits", timeout_s=T),
         H("counts", counts, {}, FUNCS, covers=["counts"],
-          engine="numeric cross-check on 16 concrete circuits (get_counts / "
+          engine="numeric cross-check on 17 concrete circuits (get_counts / "
           "measure use .real and truthiness: cannot carry symbols)",
-          bounds="16 fixed circuits", outside="everything symbolic",
+          bounds="17 fixed circuits", outside="everything symbolic",
           timeout_s=T)]
